@@ -283,7 +283,7 @@ func (e *Engine) LoadContracts(path string, external bool) error {
 				e.lemmas = append(e.lemmas, &Lemma{Name: name, Clause: *cl, Pkg: pkg, Binds: binds})
 			}
 			cur = nil
-		case kw == "ghost" && cur == nil:
+		case kw == "ghost" && (cur == nil || !strings.Contains(rest, "[")):
 			// ghost name : Sort
 			parts := strings.SplitN(rest, ":", 2)
 			if len(parts) != 2 {
